@@ -133,7 +133,8 @@ SameConditionsAnyOrder(a, b) ==
   /\ a.ccost = b.ccost /\ a.rem = b.rem /\ a.add = b.add
 
 \* the legacy path may run out of cost or interpreter resources where the cheaper native path completes
-PermittedLegacyFailure(leg) == leg.err = 23 \/ leg.err = 0
+\* ("resource": the harness's classification of the error: cost exceeded, out of memory, too many atoms / pairs, stack limits)
+PermittedLegacyFailure(leg) == leg.err = 23 \/ ("resource" \in DOMAIN leg /\ leg.resource)
 Agree(nat, leg) ==
   \/ nat.ok /\ leg.ok /\ SameConditions(nat.r, leg.r) /\ Le(nat.r.cost, leg.r.cost)
   \/ ~nat.ok /\ ~leg.ok
